@@ -5,6 +5,8 @@ CONSTANTS
   MinObjs = 5
   MaxKids = 2
   ExplicitNames = {"a"}
+  NamedInContainers = TRUE
+  Sharing = TRUE
   ListPolicies = {"iter", "rev", "slices", "index"}
   SeqPolicies = {"call", "direct"}
   SubPolicy = TRUE
